@@ -25,6 +25,7 @@ static int
 readname_loop(char *packet, int packetlen, char **src, char *dst, size_t length, size_t loop)
 {
 	char *dummy;
+	char *pktend;
 	char *s;
 	char *d;
 	int len;
@@ -37,13 +38,21 @@ readname_loop(char *packet, int packetlen, char **src, char *dst, size_t length,
 	len = 0;
 	s = *src;
 	d = dst;
-	while(*s && len < length - 2) {
+	/* Never read beyond the received datagram */
+	pktend = packet + packetlen;
+	while(s < pktend && *s && len < length - 2) {
 		c = *s++;
 
 		/* is this a compressed label? */
 		if ((c & 0xc0) == 0xc0) {
+			if (s >= pktend) {
+				/* Pointer cut off by end of packet */
+				if (len == 0)
+					return 0;
+				break;
+			}
 			offset = (((s[-1] & 0x3f) << 8) | (s[0] & 0xff));
-			if (offset > packetlen) {
+			if (offset >= packetlen) {
 				if (len == 0) {
 					/* Bad jump first in packet */
 					return 0;
@@ -58,6 +67,8 @@ readname_loop(char *packet, int packetlen, char **src, char *dst, size_t length,
 		}
 
 		while(c && len < length - 1) {
+			if (s >= pktend)
+				break; /* Label cut off by end of packet */
 			*d++ = *s++;
 			len++;
 
@@ -67,6 +78,9 @@ readname_loop(char *packet, int packetlen, char **src, char *dst, size_t length,
 		if (len >= length - 1) {
 			break; /* We used up all space */
 		}
+
+		if (s >= pktend)
+			break;
 
 		if (*s != 0) {
 			*d++ = '.';
